@@ -2,11 +2,33 @@
 #![allow(warnings)]
 macro_rules! info { ($($t:tt)*) => { () } }
 #[derive(Clone, Copy, Debug, PartialEq, Eq, Default)] pub struct Layout { pub size: usize, pub align: usize }
-pub mod syn { #[derive(Debug, Clone, Copy, PartialEq)] pub struct Type(pub &'static str); }
-pub struct Options { pub size_t_is_usize: bool }
+pub mod syn {
+    #[derive(Debug, Clone, Copy, PartialEq)] pub struct Type(pub &'static str);
+    macro_rules! parse_quote {
+        ([u64; 2]) => { crate::syn::Type("[u64; 2]") };
+        (root :: __BindgenFloat16) => { crate::syn::Type("__BindgenFloat16") };
+        ($i:ident) => { crate::syn::Type(stringify!($i)) };
+    }
+    pub(crate) use parse_quote;
+    pub fn parse_str(_: &str) -> Result<Type, ()> { Ok(Type("custom")) }
+}
+macro_rules! debug_assert { ($($t:tt)*) => { () } }
+pub mod int { /*INT_RS*/ }
+pub use int::IntKind;
+/*FLOAT_KIND*/
+impl Layout { pub fn known_type_for_size(size: usize) -> Option<syn::Type> { Some(match size { 16 => syn::Type("u128"), 8 => syn::Type("u64"), 4 => syn::Type("u32"), 2 => syn::Type("u16"), 1 => syn::Type("u8"), _ => return None }) } }
+pub fn integer_type(layout: Layout) -> Option<syn::Type> { Layout::known_type_for_size(layout.size) }
+pub mod ast_ty {
+    use super::*;
+    pub fn raw_type(_: &BindgenContext, name: &'static str) -> syn::Type { syn::Type(name) }
+    /*INT_KIND_RUST_TYPE*/
+    /*FLOAT_KIND_RUST_TYPE*/
+}
+pub struct Options { pub size_t_is_usize: bool, pub convert_floats: bool, pub enable_cxx_namespaces: bool }
 pub struct BindgenContext { pub options: Options }
 impl BindgenContext {
     pub fn options(&self) -> &Options { &self.options }
+    pub fn generated_bindgen_float16(&self) {}
     /*IS_STDINT*/
 }
 fn primitive_ty(_: &BindgenContext, name: &'static str) -> syn::Type { syn::Type(name) }
@@ -32,7 +54,7 @@ mod proofs {
     use super::*;
     #[kani::proof] #[kani::unwind(20)]
     fn stdint_names_map_to_the_right_primitive() {
-        let ctx = BindgenContext { options: Options { size_t_is_usize: kani::any() } };
+        let ctx = BindgenContext { options: Options { size_t_is_usize: kani::any(), convert_floats: false, enable_cxx_namespaces: false } };
         // (C name, Rust primitive with the same width and signedness, always / only with size_t_is_usize)
         let table: [(&'static str, &'static str, bool); 13] = [("int8_t", "i8", true), ("uint8_t", "u8", true), ("int16_t", "i16", true), ("uint16_t", "u16", true), ("int32_t", "i32", true),
             ("uint32_t", "u32", true), ("int64_t", "i64", true), ("uint64_t", "u64", true), ("uintptr_t", "usize", true), ("intptr_t", "isize", true), ("ptrdiff_t", "isize", true),
@@ -49,10 +71,53 @@ mod proofs {
         }
         assert!(type_from_named(&ctx, "my_t").is_none() && !ctx.is_stdint_type("my_t"));
     }
+    /// (signed, size in bytes on x86_64-unknown-linux-gnu) of the Rust type named
+    fn rust_ty(t: syn::Type) -> Option<(bool, usize)> {
+        Some(match t.0 { "i8" | "c_schar" => (true, 1), "u8" | "c_uchar" => (false, 1), "i16" | "c_short" => (true, 2), "u16" | "c_ushort" => (false, 2), "i32" | "c_int" => (true, 4), "u32" | "c_uint" => (false, 4),
+            "i64" | "c_long" | "c_longlong" => (true, 8), "u64" | "c_ulong" | "c_ulonglong" => (false, 8), "i128" => (true, 16), "u128" => (false, 16), _ => return None })
+    }
+    #[kani::proof] #[kani::unwind(30)]
+    fn integer_kinds_map_to_rust_types_of_the_same_width_and_sign() {
+        let ctx = BindgenContext { options: Options { size_t_is_usize: true, convert_floats: false, enable_cxx_namespaces: false } };
+        let kinds = [IntKind::SChar, IntKind::UChar, IntKind::Short, IntKind::UShort, IntKind::Int, IntKind::UInt, IntKind::Long, IntKind::ULong, IntKind::LongLong, IntKind::ULongLong,
+                     IntKind::I8, IntKind::U8, IntKind::I16, IntKind::U16, IntKind::I32, IntKind::U32, IntKind::I64, IntKind::U64, IntKind::I128, IntKind::U128];
+        // C widths on the host target for the kinds IntKind::known_size leaves open
+        let c_size = [1usize, 1, 2, 2, 4, 4, 8, 8, 8, 8, 1, 1, 2, 2, 4, 4, 8, 8, 16, 16];
+        let mut i = 0;
+        while i < kinds.len() {
+            let t = ast_ty::int_kind_rust_type(&ctx, kinds[i], None);
+            match rust_ty(t) {
+                Some((signed, size)) => {
+                    assert!(signed == kinds[i].is_signed(), "integer kind mapped to a Rust type of the other signedness");
+                    assert!(size == c_size[i], "integer kind mapped to a Rust type of another width");
+                    if let Some(k) = kinds[i].known_size() { assert!(k == size, "IntKind::known_size disagrees with the emitted type"); }
+                }
+                None => assert!(false, "integer kind mapped to an unknown type name"),
+            }
+            i += 1;
+        }
+        assert!(ast_ty::int_kind_rust_type(&ctx, IntKind::Bool, None) == syn::Type("bool"));
+        assert!(ast_ty::int_kind_rust_type(&ctx, IntKind::Char { is_signed: kani::any() }, None) == syn::Type("c_char"));
+        let w: usize = kani::any(); kani::assume(w == 1 || w == 2 || w == 4);
+        assert!(rust_ty(ast_ty::int_kind_rust_type(&ctx, IntKind::WChar, Some(Layout { size: w, align: w }))) == Some((false, w)), "wchar_t must become the unsigned integer of its size");
+    }
+    #[kani::proof]
+    fn float_kinds_map_to_rust_types_of_the_same_width() { float_case(false); float_case(true); }
+    fn float_case(conv: bool) {
+        let ctx = BindgenContext { options: Options { size_t_is_usize: true, convert_floats: conv, enable_cxx_namespaces: false } };
+        let f = ast_ty::float_kind_rust_type(&ctx, FloatKind::Float, Some(Layout { size: 4, align: 4 }));
+        assert!(f == syn::Type(if conv { "f32" } else { "c_float" }), "float mapped to a type of another width");
+        let d = ast_ty::float_kind_rust_type(&ctx, FloatKind::Double, Some(Layout { size: 8, align: 8 }));
+        assert!(d == syn::Type(if conv { "f64" } else { "c_double" }), "double mapped to a type of another width");
+        assert!(ast_ty::float_kind_rust_type(&ctx, FloatKind::Float128, Some(Layout { size: 16, align: 16 })) == syn::Type("u128"), "__float128 must be a 16-byte, 16-aligned blob");
+        assert!(ast_ty::float_kind_rust_type(&ctx, FloatKind::LongDouble, Some(Layout { size: 16, align: 16 })) == syn::Type("u128"), "16-byte long double must be a 16-byte blob");
+        assert!(ast_ty::float_kind_rust_type(&ctx, FloatKind::LongDouble, Some(Layout { size: 8, align: 8 })) == syn::Type("f64"));
+        assert!(ast_ty::float_kind_rust_type(&ctx, FloatKind::Float16, Some(Layout { size: 2, align: 2 })) == syn::Type("__BindgenFloat16"));
+    }
     fn any_layout() -> Option<Layout> { if kani::any() { None } else { let s: usize = kani::any(); let a: u8 = kani::any(); kani::assume(a < 6 && s <= 1 << 16); Some(Layout { size: s, align: 1usize << a }) } }
     #[kani::proof] #[kani::unwind(6)]
     fn packed_attribute_and_pragma_pack_are_detected() {
-        let ctx = BindgenContext { options: Options { size_t_is_usize: true } };
+        let ctx = BindgenContext { options: Options { size_t_is_usize: true, convert_floats: false, enable_cxx_namespaces: false } };
         let n: usize = kani::any(); kani::assume(n <= 3);
         let c = CompInfo { packed_attr: kani::any(), has_own_virtual_method: kani::any(), fields: Fields { a: [FieldL { layout: any_layout() }, FieldL { layout: any_layout() }, FieldL { layout: any_layout() }], n } };
         let parent = any_layout();
@@ -68,7 +133,7 @@ mod proofs {
     }
     #[kani::proof] #[kani::unwind(6)]
     fn already_packed_means_naturally_aligned_offsets() {
-        let ctx = BindgenContext { options: Options { size_t_is_usize: true } };
+        let ctx = BindgenContext { options: Options { size_t_is_usize: true, convert_floats: false, enable_cxx_namespaces: false } };
         let n: usize = kani::any(); kani::assume(n <= 3);
         let ls = [any_layout(), any_layout(), any_layout()];
         let c = CompInfo { packed_attr: true, has_own_virtual_method: false, fields: Fields { a: [FieldL { layout: ls[0] }, FieldL { layout: ls[1] }, FieldL { layout: ls[2] }], n } };
